@@ -25,6 +25,12 @@ def apply (cap : Nat) (l : List Slot) (op : Op) : List Slot × Res :=
   | .atKey key => (l, match l[key]? with | some s => .elem s | none => .raised)
   | .index key => (l, match l[key]? with | some s => .elem s | none => .raised)
 
+/-- An argument that refers to an element of the list is that element's value at call time. -/
+def applyA (cap : Nat) (l : List Slot) (a : AOp) : List Slot × Res :=
+  match resolveL l a with
+  | some op => apply cap l op
+  | none => (l, .raised)
+
 def run (cap : Nat) (l : List Slot) : List Op → List Slot
   | [] => l
   | op :: rest => run cap (apply cap l op).1 rest
